@@ -177,3 +177,49 @@ theorem resume_from_error_sound {G : Grammar} {T : Table} {s0 : Nat} (hT : Table
   (parseFrom_sound hT eof fuel' rest _ consumed v (reductionsOn_inv hT t false fuel cfg consumed hinv) hacc).2
 
 end LRProto
+
+namespace LRProto
+open EarleyProto
+
+/-- does `feed_token` of a token of type `t` succeed (shift or accept) from `cfg`? -/
+def feedOK (T : Table) (eof fuel : Nat) (cfg : Config) (t : Nat) : Bool :=
+  match reduceLoop T t (t == eof) fuel cfg with
+  | Outcome.shifted _ => true
+  | Outcome.accept _ => true
+  | _ => false
+
+/-- `InteractiveParser.accepts()`: trial feeding, on copies, of the terminals that have an action in the state on top (`choices()`) -/
+def acceptsOf (T : Table) (terms : List Nat) (eof fuel : Nat) (cfg : Config) : List Nat :=
+  (terms.filter fun t => match cfg.states with
+    | [] => false
+    | q :: _ => (T.action q t).isSome).filter (feedOK T eof fuel cfg)
+
+/-- a terminal without an action in the state on top cannot be fed -/
+theorem feedOK_needs_choice (T : Table) (eof fuel : Nat) (cfg : Config) (t : Nat) (h : feedOK T eof fuel cfg t = true) :
+    ∃ q ss, cfg.states = q :: ss ∧ (T.action q t).isSome = true := by
+  unfold feedOK at h
+  cases fuel with
+  | zero => simp [reduceLoop] at h
+  | succ f =>
+    unfold reduceLoop at h
+    cases hst : cfg.states with
+    | nil => simp [hst] at h
+    | cons q ss =>
+      refine ⟨q, ss, rfl, ?_⟩
+      cases hact : T.action q t with
+      | none => simp [hst, hact] at h
+      | some a => rfl
+
+/-- **`accepts()` is exact**: a terminal is in it iff feeding a token of that type succeeds — restricting the trials to `choices()` loses nothing. -/
+theorem accepts_exact (T : Table) (terms : List Nat) (eof fuel : Nat) (cfg : Config) (t : Nat) (ht : t ∈ terms) :
+    t ∈ acceptsOf T terms eof fuel cfg ↔ feedOK T eof fuel cfg t = true := by
+  unfold acceptsOf
+  simp only [List.mem_filter]
+  constructor
+  · intro h; exact h.2
+  · intro h
+    obtain ⟨q, ss, hst, hq⟩ := feedOK_needs_choice T eof fuel cfg t h
+    refine ⟨⟨ht, ?_⟩, h⟩
+    simp [hst, hq]
+
+end LRProto
